@@ -764,7 +764,8 @@ impl<'a> Gen<'a> {
             }
             31 => {
                 // reserved / aliased result registers (the instruction must fail)
-                let rs = *self.rng.pick(&[ZERO, ONE, 8u8, 15u8]);
+                // (incl. the registers that delimit the owned memory regions)
+                let rs = *self.rng.pick(&[ZERO, ONE, 8u8, 15u8, 4u8, 5u8, 6u8, 7u8, 12u8]);
                 match self.rng.below(5) {
                     0 => self.emit(op::sww(k, rs, v)),
                     1 => {
